@@ -292,6 +292,117 @@ pub fn run(ctx: &mut Ctx) {
             }
         }
     }
+    h2_request_racing_with_goaway(ctx);
+}
+
+/// An HTTP/2 session with a request in flight (its outbound connection takes 5 s) when the shutdown is submitted,
+/// and a second request that the client had sent before it could see the GOAWAY: the in-flight request must still
+/// be served to its end (200 at 5 s), the session must stay until then, and completion() comes only afterwards.
+fn h2_request_racing_with_goaway(ctx: &mut Ctx) {
+    use std::time::Duration;
+    use trusttunnel::shutdown::Shutdown;
+    use trusttunnel::verif::vlive;
+    use trusttunnel::verif::vtunnel::{ConnectScript, FwdScript};
+    // `late`: None = no second request; Some(k) = the second request is handed to the client's connection, the scheduler
+    // runs k times (so that it is on the wire, but - for some k - not yet read by the endpoint), then the shutdown is
+    // submitted; Some(100 + k) = the shutdown is submitted first, k scheduler runs later the request follows
+    for late in [None, Some(0usize), Some(1), Some(2), Some(3), Some(4), Some(100), Some(101), Some(102)] {
+        let shutdown = Shutdown::new();
+        let core = std::sync::Arc::new(crate::c10::plain_core(shutdown.clone()));
+        trusttunnel::verif::hooks::reset();
+        let mut script = FwdScript::default();
+        script.connect.insert("slow.example:443".into(), ConnectScript::DelayedOk { ms: 5_000 });
+        trusttunnel::verif::hooks::STATE.lock().unwrap().forwarder = Some(script);
+        let rt = tokio::runtime::Builder::new_current_thread().enable_all().start_paused(true).build().unwrap();
+        let verdict: Result<(), String> = rt.block_on(async {
+            let Some(mut sess) = vlive::open_h2(&core, "localhost").await else { return Err("could not open the HTTP/2 session".into()) };
+            let Some(mut first) = sess.request("CONNECT", "slow.example:443", &[], false).await else { return Err("request #1 refused".into()) };
+            tokio::time::sleep(Duration::from_millis(1_000)).await;
+
+            first.poll();
+            if first.status.is_some() || first.failed {
+                return Err("request #1 was answered before its connection attempt completed".into());
+            }
+            let mut second = None;
+            match late {
+                None => shutdown.lock().unwrap().submit(),
+                Some(k) if k < 100 => {
+                    second = sess.request("CONNECT", "late.example:443", &[], false).await;
+                    for _ in 0..k {
+                        tokio::task::yield_now().await;
+                    }
+                    shutdown.lock().unwrap().submit();
+                }
+                Some(k) => {
+                    shutdown.lock().unwrap().submit();
+                    for _ in 0..k - 100 {
+                        tokio::task::yield_now().await;
+                    }
+                    second = sess.request("CONNECT", "late.example:443", &[], false).await;
+                }
+            }
+            let t0 = tokio::time::Instant::now();
+            let mut ended_at = None;
+            while t0.elapsed() < Duration::from_secs(20) {
+                tokio::time::sleep(Duration::from_millis(50)).await;
+
+                first.poll();
+                if let Some(s) = second.as_mut() {
+                    s.poll();
+                }
+                if ended_at.is_none() && sess.server_ended() {
+                    ended_at = Some(t0.elapsed().as_millis() as u64);
+                }
+                if first.status.is_some() || first.failed {
+                    break;
+                }
+            }
+            if first.status != Some(200) {
+                return Err(format!(
+                    "the request in flight at the shutdown was not served to its end: status {:?}, failed {}, the session ended {:?} ms after the submission (its connection attempt completes 4000 ms after it)",
+                    first.status, first.failed, ended_at
+                ));
+            }
+            if let Some(ms) = ended_at {
+                if ms < 3_900 {
+                    return Err(format!("the session ended {} ms after the submission, before its in-flight request was answered", ms));
+                }
+            }
+            // the tunnel of request #1 is up; the client ends it, then the session and the shutdown complete
+            first.send(b"", true);
+            if let Some(s2) = second.as_mut() {
+                // (a second request that was served as well: its tunnel is ended too)
+                s2.send(b"", true);
+            }
+            let t1 = tokio::time::Instant::now();
+            while !sess.server_ended() && t1.elapsed() < Duration::from_secs(100) {
+                tokio::time::sleep(Duration::from_millis(100)).await;
+
+                first.poll();
+            }
+            if !sess.server_ended() {
+                return Err("the session did not wind down within 100 s after its last stream ended".into());
+            }
+            let sd = shutdown.clone();
+            let done = tokio::time::timeout(Duration::from_millis(10_000), async move {
+                #[allow(clippy::await_holding_lock)]
+                sd.lock().unwrap().completion().await
+            })
+            .await;
+            if done.is_err() {
+                return Err("completion() still pending 10 s after the session ended".into());
+            }
+            Ok(())
+        });
+        trusttunnel::verif::hooks::reset();
+        match verdict {
+            Ok(()) => ctx.stat(if late.is_some() { "h2_in_flight_with_racing_request" } else { "h2_in_flight_at_shutdown" }),
+            Err(e) => ctx.oracle_failure(
+                "graceful_shutdown",
+                &format!("HTTP/2 session with a CONNECT in flight (connection attempt of 5 s) at the shutdown{}: {}", match late { None => String::new(), Some(k) if k < 100 => format!(" and a second request sent {} scheduler turn(s) before the submission", k), Some(k) => format!(" and a second request sent {} scheduler turn(s) after the submission", k - 100) }, e),
+            ),
+        }
+    }
 }
 
 /// C19 live: the real `Core::listen` (TCP + QUIC) with idle and busy HTTP/3 sessions, an idle
